@@ -17,9 +17,12 @@ Definition known_C18_bits (c : cfg) (i : input) : bool :=
   | _ => false
   end.
 
-(* tables whose Allocated leases do not all survive loadByteArray's validation:
-   an acknowledged lease with an empty client id or an address outside net1 (reachable through
-   DESIGN section 11 #22: the requested address of a DISCOVER is not checked against the subnet) *)
+(* tables whose Allocated leases do not all survive loadByteArray's validation: an acknowledged lease with
+   (a) an empty client id (a client sending option 61 with length 0: still reachable, finding
+       restart-drops-empty-clientid), or
+   (b) an address outside net1 (was reachable through DESIGN 11 #22 until /repo 7baf630, which makes allocIPOffer
+       take a requested address only inside the lease's subnet; kept because the theorem quantifies over ALL
+       tables, not only the reachable ones) *)
 Definition known_C18_restart (s1 : subnet) (t : table) : bool :=
   existsb (fun l => allocated l &&
                     negb (avalid (r_ip (l_rec l)) && contains (s_lan (n_cfg s1)) (r_ip (l_rec l))
